@@ -143,6 +143,31 @@ pub fn drive_c12(a: &Args, out: &mut Out) {
         let ops = alternating_ops_at(&lens, &kinds, rng.chance(2, 3), o0, n0);
         emit_group(&ops, n, out);
     }
+    // scale: ops are only numbers, so large radii, long runs, long lists and large base offsets
+    // are cheap (everything stays below 2^31, the integer range of TLC)
+    let radii = [8usize, 16, 50, 100, 255, 256, 257, 1000, 4096, 65535, 65536, 100_000];
+    for i in 0..(if thorough { 4000 } else { 400 }) {
+        let n = radii[rng.below(radii.len())];
+        let nops = if i % 20 == 0 { rng.range(100, 400) } else { rng.range(0, 40) };
+        let lens: Vec<usize> = (0..nops)
+            .map(|_| match rng.below(10) {
+                0 => 1,
+                1 => n - 1,
+                2 => n,
+                3 => n + 1,
+                4 => 2 * n - 1,
+                5 => 2 * n,
+                6 => 2 * n + 1,
+                7 => 2 * n + 2,
+                8 => 3 * n + rng.below(5),
+                _ => rng.range(1, 3 * n),
+            })
+            .collect();
+        let kinds = [rng.range(1, 3) as u8, rng.range(1, 3) as u8, rng.range(1, 3) as u8];
+        let (o0, n0) = if i % 2 == 0 { (0, 0) } else { (rng.below(1_000_000), rng.below(1_000_000)) };
+        let ops = alternating_ops_at(&lens, &kinds, rng.chance(1, 2), o0, n0);
+        emit_group(&ops, n, out);
+    }
     for _ in 0..nrand / 10 {
         let (x, y) = gen::random_pair(&mut rng, 40);
         let ops = similar::capture_diff_slices(similar::Algorithm::Myers, &x, &y);
@@ -197,13 +222,20 @@ pub fn expand_record(old: &[u32], new: &[u32], op: &DiffOp, case: i64) -> Value 
             .collect();
         let mut cap = Capture::new();
         op.apply_to_hook(&mut cap).unwrap();
-        (changes, slices, cap.into_ops())
+        // the same with the capturing hook passed by reference (D = &mut Capture)
+        let mut cap2 = Capture::new();
+        {
+            let mut by_ref = &mut cap2;
+            op.apply_to_hook(&mut by_ref).unwrap();
+        }
+        (changes, slices, cap.into_ops(), cap2.into_ops())
     });
     match r {
-        Some((changes, slices, re)) => json!({"ev":"expand1","case":case,"old":seq_json(old),"new":seq_json(new),
-            "op":op_json(op),"panic":false,"changes":changes,"slices":slices,"reapplied":ops_json(&re)}),
+        Some((changes, slices, re, re2)) => json!({"ev":"expand1","case":case,"old":seq_json(old),"new":seq_json(new),
+            "op":op_json(op),"panic":false,"changes":changes,"slices":slices,"reapplied":ops_json(&re),
+            "reapplied_ref":ops_json(&re2)}),
         None => json!({"ev":"expand1","case":case,"old":seq_json(old),"new":seq_json(new),
-            "op":op_json(op),"panic":true,"changes":[],"slices":[],"reapplied":[]}),
+            "op":op_json(op),"panic":true,"changes":[],"slices":[],"reapplied":[],"reapplied_ref":[]}),
     }
 }
 
@@ -212,16 +244,22 @@ pub fn drive_c13(a: &Args, out: &mut Out) {
     let thorough = a.thorough();
     // single ops with arbitrary in-bounds offsets, old offset != new offset, lengths differ
     let n1 = if thorough { 40000 } else { 4000 };
-    for _ in 0..n1 {
-        let lo = rng.range(0, 9);
-        let ln = rng.range(0, 9);
+    // ... and the same at scale: op lengths and offsets beyond 255 / 65 535
+    let sizes: Vec<(usize, usize)> = if thorough {
+        vec![(n1, 9), (600, 300), (60, 5000), (6, 66000)]
+    } else {
+        vec![(n1, 9), (60, 300), (10, 5000), (2, 66000)]
+    };
+    for (maxlen, _) in sizes.iter().flat_map(|&(cnt, maxlen)| std::iter::repeat((maxlen, ())).take(cnt)) {
+        let lo = if maxlen > 9 { rng.range(maxlen / 2, maxlen) } else { rng.range(0, 9) };
+        let ln = if maxlen > 9 { rng.range(maxlen / 2, maxlen) } else { rng.range(0, 9) };
         let mut old: Vec<u32> = (0..lo).map(|_| rng.below(50) as u32).collect();
         let mut new: Vec<u32> = (0..ln).map(|_| 100 + rng.below(50) as u32).collect();
         let kind = rng.below(4);
         let op = match kind {
             0 if rng.chance(1, 2) => {
                 // an equal segment at different offsets: plant it
-                let len = rng.range(0, 4);
+                let len = if maxlen > 9 { rng.range(maxlen / 4, maxlen / 2) } else { rng.range(0, 4) };
                 let seg: Vec<u32> = (0..len).map(|_| 200 + rng.below(5) as u32).collect();
                 let oi = rng.below(old.len() + 1);
                 let ni = rng.below(new.len() + 1);
